@@ -21,6 +21,7 @@ import (
 	"sort"
 	"strings"
 	"sync"
+	"sync/atomic"
 	"time"
 
 	"github.com/buildbarn/bb-remote-execution/pkg/filesystem/pool"
@@ -319,6 +320,8 @@ type env struct {
 	sessTok   map[[16]byte]int
 	otherTok  map[uint64]int
 	ctxBusy   map[int]bool
+	scen      string
+	panicked  atomic.Bool
 }
 
 func (e *env) gate(op string, leaf int) {
@@ -355,6 +358,7 @@ var serverOwner = nfsv4.ServerOwner4{SoMinorId: 7, SoMajorId: []byte("verif-majo
 func newEnv(tr *common.Trace, traceNo int, scen string, seed int64, names []string) *env {
 	e := &env{
 		tr:        tr,
+		scen:      scen,
 		clk:       &fakeClock{},
 		handleTok: map[string]string{},
 		cidTok:    map[uint64]int{},
